@@ -282,13 +282,15 @@ def apply_event(run: Run, ev, check=True):
         ok = False
         detail = dict(reason=reason, **kw)
 
+    xk = {"exact": False} if run.cfg.get("exact_false") else {}
+
     try:
         if kind == "add":
             s.add(uni.K[ev[1]])
             run.ref.append(ev[1])
             ans = ("added",)
         elif kind == "sat":
-            r = s.satisfiable(extra_constraints=uni.X[ev[1]])
+            r = s.satisfiable(extra_constraints=uni.X[ev[1]], **xk)
             ans = ("sat", bool(r))
             if check:
                 exp = len(uni.models(run.ref, ev[1])) > 0
@@ -304,7 +306,7 @@ def apply_event(run: Run, ev, check=True):
             envs = uni.models(run.ref, x)
             V = uni.values(e, envs)
             try:
-                r = s.eval(uni.E[e], n, extra_constraints=uni.X[x])
+                r = s.eval(uni.E[e], n, extra_constraints=uni.X[x], **xk)
                 vals = [v & mask(w) for v in r]
                 ans = ("vals", _norm_vals(r, w))
                 if check:
@@ -327,7 +329,7 @@ def apply_event(run: Run, ev, check=True):
             envs = uni.models(run.ref, x)
             VT = {tuple(uni._etab[e][i] for e in els) for i in envs}
             try:
-                r = s.batch_eval([uni.E[e] for e in els], n, extra_constraints=uni.X[x])
+                r = s.batch_eval([uni.E[e] for e in els], n, extra_constraints=uni.X[x], **xk)
                 rows = [tuple(v & mask(uni.ewidth[e]) for v, e in zip(row, els)) for row in r]
                 ans = ("rows", tuple(sorted(rows)))
                 if check:
@@ -351,7 +353,15 @@ def apply_event(run: Run, ev, check=True):
             V = uni.values(e, envs)
             f = s.min if kind == "min" else s.max
             try:
-                r = f(uni.E[e], extra_constraints=uni.X[x], signed=signed)
+                r = f(uni.E[e], extra_constraints=uni.X[x], signed=signed, **xk)
+                if r is None:  # the VSA backend answers None for an empty value set
+                    ans = ("UNSAT",)
+                    if check and V:
+                        bad("unsat-but-sat", feasible=sorted(V))
+                    run.log.append((ev_label(ev), ans))
+                    if not ok:
+                        run.failure = detail
+                    return ok
                 ans = ("opt", r & mask(w))
                 if check:
                     if not V:
@@ -376,7 +386,7 @@ def apply_event(run: Run, ev, check=True):
             envs = uni.models(run.ref, x)
             V = uni.values(e, envs)
             try:
-                r = s.solution(uni.E[e], v, extra_constraints=uni.X[x])
+                r = s.solution(uni.E[e], v, extra_constraints=uni.X[x], **xk)
                 ans = ("sol", bool(r))
                 if check:
                     if run.approx:
@@ -392,7 +402,7 @@ def apply_event(run: Run, ev, check=True):
             _, b, x = ev
             envs = uni.models(run.ref, x)
             f = s.is_true if kind == "istrue" else s.is_false
-            r = f(uni.B[b], extra_constraints=uni.X[x])
+            r = f(uni.B[b], extra_constraints=uni.X[x], **xk)
             ans = (kind, bool(r))
             if check and r:
                 t = uni._btab[b]
@@ -426,8 +436,13 @@ def apply_event(run: Run, ev, check=True):
         if check and uni.models(run.ref) and kind not in ("add",):
             bad("unsat-but-sat")
     except ClaripyError as e:
+        from claripy.errors import BackendError, ClaripyFrontendError
+
         ans = ("EXC", type(e).__name__)
-        bad("raised:" + type(e).__name__, msg=str(e)[:200])
+        if run.approx and isinstance(e, ClaripyFrontendError | BackendError):
+            ans = ("UNSUPPORTED",)  # an approximate solver may decline a query; declining excludes nothing
+        else:
+            bad("raised:" + type(e).__name__, msg=str(e)[:200])
     except Exception as e:  # anything else is a violation of "never crashes" for this call
         ans = ("EXC", type(e).__name__)
         bad("raised:" + type(e).__name__, msg=str(e)[:200])
